@@ -120,6 +120,14 @@ reg("C17", "model_checking",
     "Callbacks carry the last answered sequence number; timeouts hard-coded; scan results after the completion callback are optional; leak clause reads _callbacks / _stack_status_listeners.",
     "DESIGN.md section 3 C17")
 
+reg("C13", "exploration",
+    "bounded exhaustive enumeration of byte-level callback frames (independent encoder, both field orders) through the real receive path into ControllerApplication, every version",
+    "Versions 4..14 x message types 0..7 x boundary sets of 15 fields (one-at-a-time + all pairs; thorough: triples) incl. RSSI -128/127, payload lengths 0..200, group/endpoint/profile extremes: "
+    "exactly one packet for unicast/multicast/broadcast with every field equal to the encoded bytes and the type-dependent destination, none otherwise; trust-centre join callbacks for every status x "
+    "decision x address set, singly and as two joins in one read: join / leave / nothing as specified.",
+    "Frames are packed with struct in mc/checks/c13.py (pre-v14 and v14 layouts), independent of bellows types; recorders replace packet_received / handle_join / handle_leave on the instance.",
+    "DESIGN.md section 3 C13")
+
 ALL = ["C%02d" % i for i in range(1, 21)]
 
 
